@@ -9,8 +9,11 @@
 //!   ac <type> <keylen> <lablen>     add_counter
 //!   ad <variant> <reg> <chan>       0 add_destination 1 remove_destination 2 add_rcv_destination 3 remove_rcv_destination
 //!   fp|fs|fc|fd <id>                find_publication / find_subscription / find_counter / find_destination_response
-//!   dp|ds|dc <id>                   the user drops its handle
-//!   pp|ps|pc <id>                   peek at the user's handle: [h; closed; images; d1; d2; d3]
+//!   fx <id>                         find_exclusive_publication (pub(crate) in the crate: through the hook
+//!                                   ClientConductor::find_exclusive_publication_for_verif, hooks/cond-find-exclusive.diff; the driver
+//!                                   does not generate fx / dx / px when the repository lacks the hook)
+//!   dp|dx|ds|dc <id>                the user drops its handle
+//!   pp|px|ps|pc <id>                peek at the user's handle: [h; closed; images; d1; d2; d3]
 //!   cl                              Agent::on_close
 //!   tk <d>                          advance the clock
 //!   hb <t>                          the driver writes its heartbeat (consumer heartbeat of the ring)
@@ -51,6 +54,7 @@ use aeron_rs::concurrent::logbuffer::log_buffer_descriptor as lbd;
 use aeron_rs::concurrent::ring_buffer::{self, ManyToOneRingBuffer};
 use aeron_rs::counter::Counter;
 use aeron_rs::driver_proxy::DriverProxy;
+use aeron_rs::exclusive_publication::ExclusivePublication;
 use aeron_rs::image::Image;
 use aeron_rs::publication::Publication;
 use aeron_rs::subscription::Subscription;
@@ -153,6 +157,7 @@ fn err_name(e: &AeronError) -> String {
 
 enum Handle {
     Pub(Arc<Mutex<Publication>>),
+    XPub(Arc<Mutex<ExclusivePublication>>),
     Sub(Arc<Mutex<Subscription>>),
     Ctr(Arc<Counter>),
 }
@@ -394,6 +399,22 @@ impl Client {
                     Err(e) => format!("Err {}", err_name(&e)),
                 }
             },
+            #[cfg(verif_find_excl)]
+            "fx" => {
+                let r = self.conductor.lock().unwrap().find_exclusive_publication_for_verif(a[0]);
+                match r {
+                    Ok(p) => {
+                        let h = self.take_handle::<()>(1, a[0], Handle::XPub(p), |x, y| match (x, y) {
+                            (Handle::XPub(x), Handle::XPub(y)) => Arc::ptr_eq(x, y),
+                            _ => false,
+                        });
+                        ok_list(&[h])
+                    },
+                    Err(e) => format!("Err {}", err_name(&e)),
+                }
+            },
+            #[cfg(not(verif_find_excl))]
+            "fx" => panic!("unknown case kind: fx needs the hook find_exclusive_publication_for_verif (hooks/cond-find-exclusive.diff)"),
             "fs" => {
                 let r = self.conductor.lock().unwrap().find_subscription(a[0]);
                 match r {
@@ -427,9 +448,10 @@ impl Client {
                     Err(e) => format!("Err {}", err_name(&e)),
                 }
             },
-            "dp" | "ds" | "dc" => {
+            "dp" | "dx" | "ds" | "dc" => {
                 let k = match w[0] {
                     "dp" => 0,
+                    "dx" => 1,
                     "ds" => 2,
                     _ => 3,
                 };
@@ -450,9 +472,10 @@ impl Client {
                     None => ok_list(&[0]),
                 }
             },
-            "pp" | "ps" | "pc" => {
+            "pp" | "px" | "ps" | "pc" => {
                 let k = match w[0] {
                     "pp" => 0,
+                    "px" => 1,
                     "ps" => 2,
                     _ => 3,
                 };
@@ -461,6 +484,10 @@ impl Client {
                     Some((h, Handle::Pub(p))) => {
                         let p = p.lock().unwrap();
                         ok_list(&[*h, p.is_closed() as i64, 0, p.session_id() as i64, p.channel_status_id() as i64, p.original_registration_id()])
+                    },
+                    Some((h, Handle::XPub(p))) => {
+                        let p = p.lock().unwrap();
+                        ok_list(&[*h, p.is_closed() as i64, 0, p.session_id() as i64, p.channel_status_id() as i64, 0])
                     },
                     Some((h, Handle::Sub(p))) => {
                         let p = p.lock().unwrap();
